@@ -39,7 +39,7 @@ COMMON_ASSUME = [
 
 PROPS = {
     "C01": {
-        "slices": ["tree", "dets", "C01", "C05"],
+        "slices": ["tree", "dets", "C01", "C05", "C14", "C16"],
         "relevant_diff": anything,
         "assumptions": COMMON_ASSUME + ["panic-freedom and termination of encoding/csv, encoding/xml, x/net/html, time.Parse, bufio are exercised, not proved"],
         "trusted_base": ["translated signature expressions (BExp) regenerated each run; hand models of zipContains, matchOleClsid, CRX, matroska, ciCheck/markupCheck/shebangCheck with checked indexing"],
